@@ -995,6 +995,194 @@ class LayerGen:
         return {"root": root, "partials": dict(sorted(partials.items())), "data": data, "has_break": False}
 
 
+# --------------------------------------------------------------------------- rebinding
+
+
+class RebindGen:
+    """A few names rebound many times inside loops with values of very different size:
+    nil / false / true / empty string / small and large strings / integers / arrays /
+    ranges / captures, in every order (nil -> value, value -> nil, large -> small,
+    small -> large, capture -> assign), directly, through `default`, from data that is
+    nil, in included partials (same context), rendered partials and macros (contexts of
+    their own) and overriding blocks.  The namespace holds little at any time, however
+    often it was rebound."""
+
+    VALUES = ["nil", "nil", "nil", "false", "true", "''", "'x'", "0", "7", "123456789012345678901234567890",
+              "dnil", "dnil", "demp", "sbig", "ssmall", "xs", "(1..3)", "1.5", "h.missing", "h.none",
+              "h.none | default: 'dflt'", "dnil | default: sbig", "'a,b,c' | split: ','"]
+
+    def __init__(self, rng: random.Random):
+        self.r = rng
+        self.names = [f"r{i}" for i in range(rng.randint(1, 3))]
+
+    def value(self) -> str:
+        r = self.r
+        if r.random() < 0.2:
+            return q("abcdefgh"[r.randrange(8)] * r.randint(1, 120))
+        return r.choice(self.VALUES)
+
+    def bind(self, loopvar: str | None) -> list[Any]:
+        r = self.r
+        name = r.choice(self.names)
+        c = r.random()
+        if c < 0.72:
+            v = self.value()
+            if loopvar and r.random() < 0.2:
+                v = r.choice([loopvar, f"{loopvar} | append: 'zz'", f"{name} | append: 'y'", f"{name} | default: {loopvar}"])
+            return ["a", name, v]
+        body: list[Any] = []
+        if r.random() < 0.8:
+            body.append(["t", "cap" * r.randint(0, 30)])
+        if r.random() < 0.5:
+            body.append(["o", r.choice(self.names)])
+        return ["cap", name, body]
+
+    def cycle(self, loopvar: str | None) -> list[Any]:
+        """One rebinding cycle: reset, maybe look, set again."""
+        r = self.r
+        name = r.choice(self.names)
+        out: list[Any] = [["a", name, r.choice(["nil", "nil", "dnil", "false", "''", "h.none"])]]
+        if r.random() < 0.4:
+            out.append(["if", f"{loopvar or 'n1'} == {r.randint(1, 4)}", [["a", name, self.value()]], None])
+        if r.random() < 0.8:
+            out.append(["a", name, r.choice([loopvar or "7", self.value(), f"{name} | default: 'fallback'"])])
+        return out
+
+    def body(self, loopvar: str | None, n: int) -> list[Any]:
+        out: list[Any] = []
+        for _ in range(n):
+            out += self.cycle(loopvar) if self.r.random() < 0.5 else [self.bind(loopvar)]
+        return out
+
+    def program(self) -> dict[str, Any]:
+        r = self.r
+        data = {"dnil": None, "demp": "", "sbig": "B" * r.randint(60, 300), "ssmall": "s", "xs": [1, None, "a"],
+                "h": {"none": None, "v": "hv"}, "n1": r.randint(1, 4)}
+        partials: dict[str, list[Any]] = {}
+        root: list[Any] = self.body(None, r.randint(0, 2))
+        cycles = r.choice([3, 8, 20, 40, 70])
+        inner = self.body("i", r.randint(1, 4))
+        where = r.choice(["plain", "plain", "include", "render", "macro", "block", "nested", "capture"])
+        if where == "include":
+            partials["p"] = inner
+            inner = [["inc", "p", "", "", "", []]]
+        elif where == "render":
+            partials["p"] = [*inner, ["o", self.names[0]]]
+            inner = [["ren", "p", "", "", "", [["i", "i"]]], self.bind("i")]
+        elif where == "macro":
+            root.append(["mac", "mm i", inner])
+            inner = [["call", "mm i"], self.bind("i")]
+        elif where == "nested":
+            k = r.randint(2, 4)
+            inner = [["for", "j", f"(1..{k})", "", self.body("j", r.randint(1, 3)), None], *inner]
+            cycles = max(2, cycles // k)
+        elif where == "capture":
+            inner = [["cap", "whole", [["t", "w"], *inner]], *self.cycle("i")]
+        loop: list[Any] = ["for", "i", f"(1..{cycles})", "", inner, None]
+        tail: list[Any] = [*self.body(None, r.randint(0, 2)), ["t", "["], *[["o", n] for n in self.names], ["t", "]"]]
+        if where == "block":
+            partials["base"] = [*self.body(None, 1), ["blk", "b", [["t", "d"]]], *tail]
+            root = [*root, ["ext", "base"], ["blk", "b", [loop, *self.body(None, 1)]]]
+        else:
+            root = [*root, loop, *tail]
+        return {"root": root, "partials": dict(sorted(partials.items())), "data": data, "has_break": False}
+
+
+# --------------------------------------------------------------------------- carried x inherited
+
+
+class CrossGen:
+    """Loop nests that cross BOTH a boundary that carries the loop count as a number
+    (render inside a for, render-for, include-for, tablerow around an include / render,
+    macro call in a for) AND an inheritance boundary (extends + overriding block, a block
+    nested in a block, block.super), in either order, with loops on either side."""
+
+    def __init__(self, rng: random.Random):
+        self.r = rng
+        self.mark_i = 0
+
+    def mark(self) -> list[Any]:
+        m = MARKS[self.mark_i % len(MARKS)]
+        self.mark_i += 1
+        return ["t", m]
+
+    def loop(self, var: str, lo: int = 2, hi: int = 5, body: list[Any] | None = None) -> list[Any]:
+        n = self.r.randint(lo, hi)
+        return ["for", var, f"(1..{n})", "", [self.mark(), *(body or [["o", var]])], None]
+
+    def carried(self, name: str, isolated: bool) -> list[Any]:
+        """Statements reaching partial *name* through a carrying boundary."""
+        r = self.r
+        n = r.randint(2, 5)
+        opts = ["for>render", "render-for", "tablerow>render"]
+        if not isolated:
+            opts += ["for>include", "include-for", "tablerow>include", "include-with-list"]
+        k = r.choice(opts)
+        tag = "ren" if "render" in k else "inc"
+        plain = [tag, name, "", "", "", []]
+        if k.startswith("for>"):
+            return [["for", "o", f"(1..{n})", "", [self.mark(), plain], None]]
+        if k.startswith("tablerow>"):
+            return [["tr", "o", f"(1..{n})", "", [self.mark(), plain]]]
+        if k == "include-with-list":
+            return [[tag, name, "with", f"(1..{n})", "v", []]]
+        return [[tag, name, "for", f"(1..{n})", "v", []]]
+
+    def program(self) -> dict[str, Any]:
+        r = self.r
+        partials: dict[str, list[Any]] = {}
+        order = r.choice(["carried-outside", "carried-outside", "inherit-outside", "both"])
+        nested_block = r.random() < 0.35
+        use_super = r.random() < 0.4
+        base_loop_around = r.random() < 0.35
+
+        # how the inheriting template is reached decides whether `include` is allowed in it
+        reach: list[Any] = [] if order == "inherit-outside" else self.carried("child", False)
+        isolated = any(st[0] == "ren" or (st[0] in ("for", "tr") and st[4][1][0] == "ren") for st in reach)
+
+        # the loop that sits inside the overriding block (or behind block.super)
+        inner = self.loop("j", 2, 5)
+        if order in ("inherit-outside", "both") or r.random() < 0.3:
+            # ... and reaches a further partial through a carrying boundary
+            partials["row"] = [self.mark(), self.loop("c", 2, 4)]
+            inner_block: list[Any] = [*self.carried("row", isolated), *([inner] if r.random() < 0.5 else [])]
+        else:
+            inner_block = [inner]
+
+        default: list[Any] = [["t", "d"], *([self.loop("dj", 2, 5)] if use_super else [])]
+        if nested_block:
+            default.append(["blk", "inner", [["t", "n"]]])
+        blk: list[Any] = ["blk", "b", default]
+        base: list[Any] = [["t", "<"]]
+        if base_loop_around:
+            base.append(["for", "bo", f"(1..{r.randint(2, 3)})", "", [self.mark(), blk], None])
+        else:
+            base.append(blk)
+        base.append(["t", ">"])
+        partials["base"] = base
+
+        child: list[Any] = [["ext", "base"]]
+        if nested_block and r.random() < 0.6:
+            # override only the nested block, or both
+            child.append(["blk", "inner", inner_block])
+            if r.random() < 0.5:
+                child.append(["blk", "b", [["t", "o"], ["o", "block.super"]]])
+        else:
+            body = list(inner_block)
+            if use_super:
+                body.insert(r.randint(0, len(body)), ["o", "block.super"])
+            child.append(["blk", "b", body])
+
+        if order == "inherit-outside":
+            root = child
+        else:
+            partials["child"] = child
+            root = [["t", "["], *reach, ["t", "]"]]
+            if r.random() < 0.3:
+                root = [["t", "["], ["for", "q", f"(1..{r.randint(1, 2)})", "", [self.mark(), *root[1:-1]], None], ["t", "]"]]
+        return {"root": root, "partials": dict(sorted(partials.items())), "data": {}, "has_break": False}
+
+
 # --------------------------------------------------------------------------- shrink
 
 
